@@ -6,7 +6,8 @@ tier=${1:-quick}
 cp specs/contracts.lock.json work/lock.before 2>/dev/null
 python3 tools/weave.py --repo /repo --out work/woven --write-lock >/dev/null && { cmp -s specs/contracts.lock.json work/lock.before && echo "lock: up to date" || echo "lock: REGENERATED (commit specs/contracts.lock.json)"; }
 for p in $(python3 -c "import json; print(' '.join(c['property_id'] for c in json.load(open('MANIFEST.json'))['checks']))"); do
-  out=$(./check $p $tier 2>&1); rc=$?
+  out=$(VERIF_STRICT=1 ./check $p $tier 2>&1); rc=$?
+  [ $rc -ne 0 ] && bad=1
   v=$(python3-vt - <<PY
 import json,jsonschema
 ev=json.load(open('/verif/evidence/$p.json'))
@@ -20,3 +21,7 @@ PY
 )
   echo "$p rc=$rc $(echo "$out" | grep -vE '^KNOWN' | tail -1 | cut -c1-90) | $v | known=$(echo "$out" | grep -c '^KNOWN')"
 done
+# record the tree every check passed on: on exactly this tree an undecided / degraded run is an error (exit 2)
+if [ -z "$bad" ] && [ -z "$(git -C /repo status --porcelain -- src)" ]; then
+  echo "$(git -C /repo rev-parse HEAD:src) src tree of /repo $(git -C /repo rev-parse --short HEAD)" > baseline_tree.txt; echo "baseline_tree.txt: $(cat baseline_tree.txt)"
+fi
